@@ -39,7 +39,7 @@ impl Monitor for C13 {
         vec![("histories", tier.pick(90_000, 1_800_000))]
     }
     fn rule(&self) -> &'static str {
-        "case = one real learn() run of a tiny model (dense(1) or dense(2)->dense(1), linear / ReLU / tanh, bias optional) on 1..3 training and 1..3 validation samples with dyadic inputs, targets, initial weights and learning rates (0.125..2), objective AE or MSE, batch 1..3, so that the validation loss really falls, rises from the first epoch, is V-shaped, oscillates (AE steps of fixed size around the optimum, MSE beyond the stable learning rate) or sits on plateaus of exactly equal values (AE gradient 0 at an exact hit, validation inputs 0, dead ReLU); tolerance T in 1..6, epoch budget E in 1..15, with and (every 5th) without validation data. The offline checker takes the returned vectors v (validation loss), train, accuracy: |train| = |acc| = |v| = n <= E; no e < n with P(e); n < E implies P(n), where P(e) = e > T and v strictly increasing over the last T recorded epochs; without validation data n = E and the other vectors are empty. Independently the event log must show exactly n distinct update step numbers 1..n. Distinct = distinct (T, E, loss vector) triples; floors: all 13 window comparison patterns for T <= 3 observed at decision points, early stops and full-length runs for every T."
+        "case = one real learn() run of a tiny model (dense(1) or dense(2)->dense(1), linear / ReLU / tanh, bias optional) on 1..3 training and 1..3 validation samples with dyadic inputs, targets, initial weights and learning rates (0.125..2), objective AE or MSE, batch 1..3, so that the validation loss really falls, rises from the first epoch, is V-shaped, oscillates (AE steps of fixed size around the optimum, MSE beyond the stable learning rate) or sits on plateaus of exactly equal values (AE gradient 0 at an exact hit, validation inputs 0, dead ReLU); tolerance T in 1..6, epoch budget E in 1..15, with and (every 5th) without validation data, print frequency None / 1 / 2..4 / 100. The offline checker takes the returned vectors v (validation loss), train, accuracy: |train| = |acc| = |v| = n <= E; no e < n with P(e); n < E implies P(n), where P(e) = e > T and v strictly increasing over the last T recorded epochs; without validation data n = E and the other vectors are empty. Independently the event log must show exactly n distinct update step numbers 1..n. Distinct = distinct (T, E, loss vector) triples; floors: all 13 window comparison patterns for T <= 3 observed at decision points, early stops and full-length runs for every T."
     }
     fn assumptions(&self) -> Vec<&'static str> {
         vec!["no value is injected into the library: trajectories come from real training", "NaN validation losses are not generated (comparisons with NaN are unspecified)"]
@@ -70,6 +70,13 @@ impl Monitor for C13 {
         let n_train = rng.range(1, 3);
         let n_val = rng.range(1, 3);
         let batch = rng.range(1, 3);
+        // the print frequency must not influence anything that is returned
+        let print: Option<i32> = match rng.range(0, 9) {
+            0 => Some(1),
+            1 => Some(rng.range(2, 4) as i32),
+            2 => Some(100),
+            _ => None,
+        };
         let pt = |rng: &mut Rng| -> (Vec<f32>, Vec<f32>) { (vec![*rng.pick(&[1.0f32, -1.0, 0.5, 2.0, 0.0, -0.5])], vec![*rng.pick(&[0.0f32, 1.0, -1.0, 2.0, 0.5, 4.0, -3.0])]) };
         let (mut txs, mut tts) = (Vec::new(), Vec::new());
         for _ in 0..n_train {
@@ -85,7 +92,7 @@ impl Monitor for C13 {
         }
         let train = DataSet::new(Sh::Flat(1), txs, tts);
         let val = DataSet::new(Sh::Flat(1), vxs, vts);
-        let desc = format!("{} lr{} {} T{} E{} batch{} train{:?}->{:?} val{:?}->{:?} w{:?}", cfg.describe(), lr, obj.name(), t, e_budget, batch, train.xs, train.ts, val.xs, val.ts, params.iter().map(|p| p.flat()).collect::<Vec<_>>());
+        let desc = format!("{} lr{} {} T{} E{} print{:?} batch{} train{:?}->{:?} val{:?}->{:?} w{:?}", cfg.describe(), lr, obj.name(), t, e_budget, print, batch, train.xs, train.ts, val.xs, val.ts, params.iter().map(|p| p.flat()).collect::<Vec<_>>());
         let mut out = Out::new(String::new());
         let mut net = match build(&cfg, Some(&params)) {
             Ok(n) => n,
@@ -101,7 +108,7 @@ impl Monitor for C13 {
         let (res, events) = in_cached_pool(2, || {
             guard(|| {
                 let validation: Option<(&Vec<&Tensor>, &Vec<&Tensor>, i32)> = if with_val { Some((&vxr, &vtr, t as i32)) } else { None };
-                net.learn(&xr, &tr, validation, batch, e_budget as i32, None)
+                net.learn(&xr, &tr, validation, batch, e_budget as i32, print)
             })
         });
         let (tl, vl, va) = match res {
